@@ -118,7 +118,7 @@ CLAIMED["C15"] = ("client-rig", "fault_enumeration",
    RIG_NOTE + " The prefix of a re-run equals the counting run because program, schedule seed and transport are deterministic.", "runtime fault injection at every transport operation index + quiescence/termination monitors", "DESIGN.md §4 C15")
 CLAIMED["C19"] = ("client-rig", "exploration",
    "Actors on several real clients create, destroy and drop objects (3 UUIDs, re-created under new cookies) and services (2 UUIDs) while discoverers of every entry shape (built in the three ways, read at random points with cancelled polls, restarted), lifetimes bound to every object and find_object queries run concurrently under seeded random schedules. At quiescence the discoverer database (iter, object_id, service_id) must equal the ground truth per entry, per-object event streams must alternate created/destroyed and end in the truth, a lifetime has resolved iff its object is gone, and find results must have existed during the call. Held on the (program, schedule) pairs observed.",
-   RIG_NOTE + " Ground truth = the Object/Service values the actors hold at quiescence.", "runtime convergence-to-ground-truth oracle over randomized schedules", "DESIGN.md §4 C19")
+   RIG_NOTE + " Ground truth = the Object/Service values the actors hold at quiescence. The thorough tier adds Miri and AddressSanitizer slices of the same workload (MaybeUninit array in aldrin/src/discoverer.rs).", "runtime convergence-to-ground-truth oracle over randomized schedules; Miri/ASan slices in the thorough tier", "DESIGN.md §4 C19")
 ENGINES.append({"name": "client-rig", "path": "harness/src/bus/clientrig.rs", "serves_properties": ["C04", "C05", "C06", "C15", "C19"],
   "kind_free_text": "real aldrin clients + broker + connection tasks on the deterministic executor in random mode; transport with FIFO bounds, fault injection at the k-th ready operation (error / EOF / half-open) and protocol-version downgrade; program generator over the public client API; in-poll hang watchdog"})
 
